@@ -52,6 +52,11 @@ func vDeclared() int64 {
 	if verifBool("chunked") {
 		return -1
 	}
+	// a length just above the built-in 4MB default (the body bytes themselves are not
+	// materialised: a response is judged by what it declares before anything is read)
+	if verifBool("declaresOneByteMoreThanTheDefaultLimit") {
+		return DefaultMaxPayloadSize + 1
+	}
 	return int64(verifChoose("declaredLength", verifBound("maxBody")+2))
 }
 
